@@ -121,6 +121,9 @@ check("C03", "fault_enumeration", "exhaustive crash-point x lost/torn-write enum
 check("C04", "fault_enumeration", "nested crash-point enumeration over recorded recoveries",
       "For histories that leave pending records, every state a completed call leaves behind is opened once uninterrupted under the recorder (this is the recovery); every prefix of that recovery's mutation stream is a nested crash state, iterated to nesting depth 2 (quick) / 3 (thorough) with content deduplication and a cap on the number of nested states (reported); each nested state must open and show the same frames as the uninterrupted recovery.",
       "Nested enumeration is capped (120 states quick, 1500 thorough per history); the cap is reported and the run is then not marked exhaustive.", "DESIGN.md §2.2, §3 C04", "crash")
+check("C29", "fault_enumeration", "exhaustive single-fault enumeration over a region map of real capsules, each faulted capsule run through the real unlock",
+      "Plaintexts of 5 B, 1 MiB+1, 2 MiB and a real .mv2 (quick) / 11 sizes from 4 B to 3 MiB incl. 1 MiB-1, 1 MiB, 1 MiB+1, 2 MiB+7 and two real memories (thorough) are locked by the real lock_file; the capsule is parsed into header fields, length prefixes, ciphertext bodies and tags; the fault table is: every bit of the parsed header fields (all 512 header bits in thorough on three sizes), every (second, in quick) bit of every length prefix, 2-3 bits at first/middle/last ciphertext byte and two tag bytes of every chunk, truncation at every length 0..64, inside and after every length prefix, mid-ciphertext, before and inside each tag and at every chunk boundary, 1/3/4/5/20 appended bytes, every chunk swap, duplicate and drop, dropped tail chunks with the size field rewritten, five size-field values, a foreign header, four wrong passwords. Oracle: unlock(lock(f)) = f on both output-path conventions; every modified capsule -> Err; a file at the output path never differs from f.",
+      "Ciphertext flips are sampled by position inside a chunk (AES-GCM treats every ciphertext byte alike); header, prefixes and structure are exhaustive. lock_file's salt/nonce come from the OS RNG; the table is positional, so it is the same on every run.", "DESIGN.md §3 C29", "fault")
 check("C17", "model_checking", "explicit-state exploration of the lock protocol on the real code, second writer on separate descriptors and in a second process",
       "Writer A (a real Memvid handle) takes every sequence of <= 3 (quick) / <= 4 (thorough) steps over {put, commit, put+commit, vacuum, ticket, enable_vec, close+open, doctor, commit_skip_indexes+finalize}; after create and after every step writer B probes the exclusive lock on its own open file description (all interleavings of B's probe with A's steps). Invariant: while A is alive B cannot acquire; after A is dropped B can. On a violation the trace is extended to its consequence with a real second process that opens, puts and commits while A does the same, and the frames are counted after reopen.",
       "flock conflicts are per open file description, so a second descriptor in the same process is equivalent to a second process for the lock; the consequence run uses a real process. The TLA+-model formulation of the quantifier is replaced by exploring the implementation itself.", "DESIGN.md §3 C17", "lockmc")
@@ -172,6 +175,8 @@ def main():
              "kind_free_text": "a worker builds each enumerated corpus with the real API and answers every enumerated request at each stage; the parent evaluates the oracle"},
             {"name": "crash", "path": "harness/src/x_crash.rs, harness/shim/recorder.c", "serves_properties": ["C02", "C03", "C04"],
              "kind_free_text": "LD_PRELOAD syscall recorder + in-memory replay to every crash / power-loss / nested-recovery state; each distinct state opened with the real code"},
+            {"name": "fault", "path": "harness/src/x_capsule.rs, x_fault.rs", "serves_properties": [p for p, c in CHECKS.items() if c["engine"] == "fault"],
+             "kind_free_text": "region map of a finished file from the public codecs + finite fault table (bit flips, field substitution, zeroing, truncation, splices); every faulted file is run through the real API"},
             {"name": "lockmc", "path": "harness/src/s_lock.rs", "serves_properties": ["C17"],
              "kind_free_text": "explicit-state exploration of writer steps x second-writer probes on the real lock code"},
             {"name": "walmc", "path": "harness/src/s_wal.rs", "serves_properties": ["C05"],
